@@ -47,7 +47,7 @@ fn acts(n: &Node, thorough: bool, jumps: &[u64]) -> Vec<Action> {
         let next_h = m.height + 1;
         // (on the legacy networks the blocks around height 900000, where the lock rule comes into force, are opened honestly too)
         let legacy = matches!(m.network, NetID::Mainnet | NetID::Testnet);
-        let near_boundary = next_h % 200_000 == 199_999 || next_h % 200_000 == 0 || (legacy && (899_998..=900_001).contains(&next_h));
+        let near_boundary = next_h % 200_000 == 199_999 || next_h % 200_000 == 0 || (legacy && ((899_998..=900_001).contains(&next_h) || (499_998..=500_001).contains(&next_h)));
         let stake_in_this_block = m.block_txs.values().any(|t| t.kind == TxKind::Stake);
         let mut v = vec![];
         if near_boundary || stake_in_this_block {
@@ -194,12 +194,13 @@ pub fn run(run: &Run) {
         run.set(&format!("scenario:{}", name), json!({"depth_bound_completed": st.depth_completed, "unique_states": st.states, "transitions": st.transitions, "frontier_sizes": st.frontier_sizes}));
         println!("  scenario {}: depth {} states {} transitions {}", name, st.depth_completed, st.states, st.transitions);
     }
-    // testnet across height 900000, where the lock rule comes into force: stakes made shortly before it are locked from 900000 on
-    {
+    // testnet across height 500000, where stake documents begin to be checked and stakes to be registered (below it a Stake
+    // transaction is an ordinary transfer), and across height 900000, where the lock rule comes into force
+    for (name, jump, depth) in [("testnet-across-500000", 499_995u64, if thorough { 16 } else { 12 }), ("testnet-across-900000", 899_995, if thorough { 18 } else { 14 })] {
         let (_w, rootn) = root(NetID::Testnet, 0, true);
         let eng = Engine::new(run);
         let mut node = Some(rootn);
-        for a in [Action::Jump(498), Action::Open, Action::Seal(None), Action::Open, Action::Seal(None), Action::Jump(899_995)] {
+        for a in [Action::Jump(498), Action::Open, Action::Seal(None), Action::Open, Action::Seal(None), Action::Jump(jump)] {
             node = match node.as_ref().map(|n| eng.step(n, &a)) {
                 Some(StepOut::Next(x)) => Some(x),
                 _ => None,
@@ -207,14 +208,14 @@ pub fn run(run: &Run) {
         }
         match node {
             Some(start) => {
-                let j = vec![999_998u64];
+                let j = vec![599_998u64, 999_998];
                 let a = move |n: &Node| acts(n, false, &j);
                 let visit = |n: &Node| check_votes(run, n);
-                let st = bfs(&eng, vec![start], if thorough { 18 } else { 14 }, 300_000, &a, &visit);
-                run.set("scenario:testnet-across-900000", json!({"depth_bound_completed": st.depth_completed, "unique_states": st.states, "transitions": st.transitions}));
-                println!("  scenario testnet-across-900000: depth {} states {} transitions {}", st.depth_completed, st.states, st.transitions);
+                let st = bfs(&eng, vec![start], depth, 300_000, &a, &visit);
+                run.set(&format!("scenario:{}", name), json!({"depth_bound_completed": st.depth_completed, "unique_states": st.states, "transitions": st.transitions}));
+                println!("  scenario {}: depth {} states {} transitions {}", name, st.depth_completed, st.states, st.transitions);
             }
-            None => run.outcome("testnet-across-900000:prefix-not-accepted"),
+            None => run.outcome(&format!("{}:prefix-not-accepted", name)),
         }
     }
     // mainnet / testnet above the grandfathered windows: fabricated at 900000 (rules below 500000 / 900000 are excluded by the statement's reading)
